@@ -322,12 +322,14 @@ func TestVerifC13Reach(t *testing.T) {
 	depth, bound := 2, 2
 	pairs := [][]string{{"ok", "ok"}, {"ok", "500"}, {"500", "abort"}}
 	if vres.Thorough() {
-		cfgs = append(cfgs, c13Params{"least_connections", true, false}, c13Params{"ip_hash", false, true}, c13Params{"weighted_round_robin", true, true})
-		depth = 4
+		// (a scenario here costs thousands of executions: two requests through limiter, breaker,
+		// health bookkeeping and two backends; depth 3 already yields some sixty start states)
+		cfgs = append(cfgs, c13Params{"ip_hash", true, false})
+		depth = 3
 		if vrt.RaceBuild {
-			depth = 3
+			depth = 2
 		}
-		pairs = append(pairs, []string{"ok", "abort"}, []string{"refuse", "ok"}, []string{"ok", "ok", "500"})
+		pairs = append(pairs, []string{"ok", "abort"})
 	}
 	i := 0
 	for _, c := range cfgs {
